@@ -97,8 +97,10 @@ def worklists_of(fn: ast.FunctionDef) -> list[tuple[str, str, str, bool, bool]]:
         for c in adders:
             if sum(1 for n in ast.walk(fn) if isinstance(n, ast.Name) and n.id == c and isinstance(n.ctx, ast.Store)) != 1:
                 raise TranslateError(f'{fn.name}: the finder closure `{c}` is bound more than once')
-        if table not in params and sum(1 for n in ast.walk(fn) if isinstance(n, ast.Name) and n.id == table and isinstance(n.ctx, ast.Store)) != 1:
-            raise TranslateError(f'{fn.name}: the index table `{table}` is bound more than once')
+        n_stores = sum(1 for n in ast.walk(fn) if isinstance(n, ast.Name) and n.id == table and isinstance(n.ctx, ast.Store))
+        if n_stores != (0 if table in params else 1):
+            # (a re-bound name may denote a copy of the list the finder appends to)
+            raise TranslateError(f'{fn.name}: the index table `{table}` is bound {n_stores} times (a parameter must not be re-bound, a local is bound once)')
         add_uses = [n for n in ast.walk(fn) if isinstance(n, ast.Name) and n.id in adders and isinstance(n.ctx, ast.Load)]
         loops: list[tuple[ast.AST, str, list[ast.AST]]] = []        # (node, kind, body nodes)
         accounted: set[int] = set()
@@ -132,6 +134,23 @@ def worklists_of(fn: ast.FunctionDef) -> list[tuple[str, str, str, bool, bool]]:
                                      f'(only the finder call, len(), append/extend/insert and loops over it are)')
         if not loops:
             raise TranslateError(f'{fn.name}: no loop serialises the index table `{table}`')
+        for node, _kind, body in loops:
+            # a loop that can stop early does not reach every entry (nested function bodies / inner loops' own breaks aside)
+            def leaves(stmts: list, in_inner_loop: bool) -> bool:
+                for st in stmts:
+                    if isinstance(st, ast.Return) or (isinstance(st, ast.Break) and not in_inner_loop):
+                        return True
+                    if isinstance(st, (ast.FunctionDef, ast.Lambda, ast.ClassDef)):
+                        continue
+                    for fld in ('body', 'orelse', 'finalbody', 'handlers'):
+                        sub = getattr(st, fld, None)
+                        if isinstance(sub, list) and sub and isinstance(sub[0], (ast.stmt, ast.ExceptHandler)):
+                            inner = in_inner_loop or isinstance(st, (ast.For, ast.While))
+                            if leaves([x for h in sub for x in (h.body if isinstance(h, ast.ExceptHandler) else [h])], inner):
+                                return True
+                return False
+            if isinstance(node, ast.For) and leaves(node.body, False):
+                raise TranslateError(f'{fn.name}: line {node.lineno}: the loop over the index table `{table}` can stop early (break / return)')
         loops.sort(key=lambda l: _pos(l[0]))
         for i, (node, kind, body) in enumerate(loops):
             inside_ids = {id(x) for b in body for x in ast.walk(b)}
